@@ -74,7 +74,7 @@ func genRawSMF(r *Rng) []byte {
 	}
 	format := r.Pick(0, 1, 2, 2, 3, 255)
 	nt := r.Pick(0, 1, 1, 1, 2, 3, 65535)
-	div := []byte{byte(r.Pick(0, 0, 1, 0x7F, 0x80, 0xE7, 0xE2, 0xFF)), r.Byte()}
+	div := []byte{byte(r.Pick(0, 0, 1, 0x7F, 0x80, 0xE7, 0xE2, 0xFF)), byte(r.Pick(0, 0, 1, 96, r.Intn(256), r.Intn(256)))}
 	b = append(b, 'M', 'T', 'h', 'd', 0, 0, 0, byte(r.Pick(6, 6, 6, 5, 7)), 0, byte(format), byte(nt>>8), byte(nt), div[0], div[1])
 	chunks := r.Range(0, 3)
 	for c := 0; c < chunks; c++ {
@@ -96,6 +96,12 @@ func genRawSMF(r *Rng) []byte {
 		for len(b) < 14+1000 && n > 0 {
 			switch r.Intn(10) {
 			case 0:
+				if r.Bool() {
+					// a well-formed meta event with special values, on its own tick
+					b = append(append(b, byte(r.Pick(0, 0, 1, 10, 0x7F))), canonicalMeta(r)...)
+					n -= 2
+					break
+				}
 				b = append(b, 0x00, 0xFF, 0x2F, 0x00)
 			case 1:
 				b = append(b, 0x00, 0xFF, r.Byte(), byte(r.Pick(0, 1, 2, 0x7F, 0x80, 0xFF)), r.Byte(), r.Byte())
